@@ -377,7 +377,10 @@ add("explored_mark_dropped", (SER, "            m.nodes[a][EXPLORED] = True\n", 
 add("own_value_not_first", (GU, "return tuple([attr_atom] + attr_neighbors)", "return tuple(attr_neighbors + [attr_atom])"), fires={"R-OWNFIRST"})
 
 # ---------------------------------------------------------------- readers
-add("v2000_wrong_symbol_columns", (V2, "element_symbol = line[31:34].strip(\" \")", "element_symbol = line[30:33].strip(\" \")"), fires={"R-COLS", "R-PROV"})
+add("v2000_wrong_symbol_columns", (V2, "element_symbol = line[31:34].strip(\" \")", "element_symbol = line[32:35].strip(\" \")"), fires={"R-COLS", "R-PROV"})
+add("v2000_symbol_columns_with_the_blank_before", (V2, "element_symbol = line[31:34].strip(\" \")", "element_symbol = line[30:33].strip(\" \")"), silent=True,
+    note="column 30 is the blank in front of the symbol and element symbols have at most two letters: the same text on every valid line")
+add("v2000_charge_code_wider", (V2, "_to_int(line[36:39])", "_to_int(line[36:40])"), silent=True, note="column 39 belongs to the stereo parity (0..3, one digit at column 41): always blank")
 add("v2000_charge_table_swapped", (EA, "    3: {CHG: 1},\n    4: {RAD: 2},", "    3: {CHG: 1},\n    4: {RAD: 1},"), fires={"R-CHGTABLE"})
 add("v2000_prop_entry_stride", (V2, "tuple_length = 8", "tuple_length = 7"), fires={"R-COLS"})
 add("v2000_rad_lines_do_not_reset", (V2, '''                _parse_atom_value_assignments(line, atom_attrs), RAD, additional_attrs
@@ -426,7 +429,10 @@ add("refactor_wrap_while_len", (WR, '''    while True:
 
 # ---------------------------------------------------------------- parser wiring
 add("parser_lexer_listener_not_registered", (PAR, "    lexer.addErrorListener(LexerErrorListener())\n", ""), fires={"R-LISTENERS"})
-add("parser_default_listeners_kept", (PAR, "    parser.removeErrorListeners()\n", ""), fires={"R-LISTENERS"})
+add("parser_default_listeners_kept", (PAR, "    parser.removeErrorListeners()\n", ""), silent=True,
+    note="the console listener prints, the raising listener registered after it still ends the parse: same results, noise on stderr")
+add("parser_listener_removed_after_registration", (PAR, "    parser.removeErrorListeners()\n    parser.addErrorListener(ParserErrorListener())\n",
+    "    parser.addErrorListener(ParserErrorListener())\n    parser.removeErrorListeners()\n"), fires={"R-LISTENERS"})
 add("parser_start_rule_without_eof", (PAR, "    tree = parser.tucan()", "    tree = parser.tuples()"), fires={"R-LISTENERS"})
 add("parser_handler_misspelt", (PAR, "    def enterTuple(self, ctx", "    def enterTupel(self, ctx"), fires={"R-HANDLERS"})
 add("parser_atoms_share_dict", (PAR, "[atom_attrs.copy() for _ in range(count)]", "[atom_attrs for _ in range(count)]"), fires={"R-ALIAS"})
@@ -434,7 +440,21 @@ add("parser_listener_swallows_errors", (PAR, "        raise TucanParserException
 add("parser_attribute_index_unvalidated", (PAR, "            self._validate_atom_index(index)\n\n            atom_attrs = atoms_dict[index]", "            atom_attrs = atoms_dict[index]"), fires={"R-ORDERING"})
 add("parser_sort_reverse", (PAR, "sorted(self._atoms, key=lambda a: a[ATOMIC_NUMBER])", "sorted(self._atoms, key=lambda a: a[ATOMIC_NUMBER], reverse=True)"), fires={"R-CODEC"})
 add("partitioner_mutates_argument", (CAN, "    m_partitioned = m.copy()", "    m_partitioned = m"), fires={"R-EFFECT"})
-add("v3000_star_bonds_share_dict", (V3, "            bonds[t] = bond_attrs.copy()", "            bonds[t] = bond_attrs"), fires={"R-ALIAS"})
+add("v3000_star_bonds_share_dict", (V3, "            bonds[t] = bond_attrs.copy()", "            bonds[t] = bond_attrs"), silent=True,
+    note="the expanded star bonds share one record, but no bond record is written to afterwards and networkx copies them into the graph: not observable")
+add("v3000_star_bonds_share_dict_and_written", [(V3, "            bonds[t] = bond_attrs.copy()", "            bonds[t] = bond_attrs"),
+    (V3, "    _validate_bond_indices(bond_attrs, atom_attrs)", "    _validate_bond_indices(bond_attrs, atom_attrs)\n    for bond, attrs in bond_attrs.items():\n        attrs[\"first_atom\"] = bond[0]")],
+    fires={"R-ALIAS"}, note="the shared record is written to per bond: every expanded bond ends up with the last value")
+
+# ---------------------------------------------------------------- spelling of the attribute names
+GA = "tucan/graph_attributes.py"
+add("attribute_names_respelled", [(GA, 'MASS = "mass"', 'MASS = "isotope_mass"'), (GA, 'CHG = "chg"', 'CHG = "formal_charge"'), (GA, 'BOND_TYPE = "bond_type"', 'BOND_TYPE = "order"'),
+    (GA, 'PARTITION = "partition"', 'PARTITION = "tucan_partition"')], silent=True,
+    note="the names under which attributes are stored are spelled once and used through the constants: another spelling is no other behaviour")
+add("attribute_name_respelled_but_literal_used", [(GA, 'MASS = "mass"', 'MASS = "isotope_mass"'),
+    (SER, "            for attr in _SERIALIZER_NODE_ATTRIBUTE_MAPPING\n            if attr in attrs", "            for attr in _SERIALIZER_NODE_ATTRIBUTE_MAPPING\n            if attr in attrs or \"mass\" in attrs")],
+    fires={"R-ATTRREAD"}, note="a literal spelling in the place of a key has to agree with the constant: the spellings are then analysed as written")
+add("attribute_names_collide", [(GA, 'RAD = "rad"', 'RAD = "mass"')], fires={"R-KEYS"}, note="two attributes stored under one name")
 
 # ---------------------------------------------------------------- determinism
 add("timestamp_in_serializer", [(SER, '''    serialization = _write_sum_formula(m_sorted)''', '''    import time
